@@ -900,7 +900,7 @@ def solver_runs(seed, tier):
             return [x, y]
         out.append(('solver:doubleprox_dc-f=' + nm, 'doubleprox_dc both aliased proximal calls', dpdc))
 
-        def drpd(w, f=f, x0=x0):
+        def drpd(w, f=f, g=g, x0=x0):
             x = x0.copy()
             S.douglas_rachford_pd(x, w(f), [w(S.L1Norm(sp)), w(g)], [A, odl.IdentityOperator(sp)], tau=0.5, sigma=[0.5, 0.5],
                                   niter=niter)
@@ -923,6 +923,22 @@ def solver_runs(seed, tier):
             S.prox_dca(x, w(f), S.L2NormSquared(ps) * 0.5, niter=niter, gamma=0.5)
             return [x]
         out.append(('solver:prox_dca-f=' + nm, 'prox_dca on a product space', pdca2))
+    # dca: f_convex_conj.gradient(g.gradient(x), out=x)  vs. the same recursion written out of place
+    for nm, fd, gd in (('L2sq/L2sq-translated', S.L2NormSquared(sp), S.L2NormSquared(sp).translated(d) * 0.5),
+                     ('quadform/huber', S.QuadraticForm(operator=odl.ScalingOperator(sp, 2.0), vector=d), S.Huber(sp, 0.5)),
+                     ('L2sq-sepsum/L2sq', S.SeparableSum(S.L2NormSquared(odl.rn(2)), S.L2NormSquared(odl.rn(2)) * 2.0),
+                      S.L2NormSquared(odl.ProductSpace(odl.rn(2), 2)).translated(odl.ProductSpace(odl.rn(2), 2).one()))):
+        x0 = rnd_el(rng, fd.domain)
+
+        def dca_run(w, f=fd, g=gd, x0=x0):
+            x = x0.copy()
+            if w(f) is f:
+                S.dca(x, f, g, niter=niter)
+            else:
+                for _ in range(niter):
+                    x = f.convex_conj.gradient(g.gradient(x).copy())
+            return [x]
+        out.append(('solver:dca-' + nm, 'dca f*.gradient(g.gradient(x), out=x)', dca_run))
     return out
 
 
